@@ -25,7 +25,7 @@ RULE = ('histories of 50-400 Deque calls (append/appendleft/extend/extendleft/po
         'distinct_nontrivial = distinct (operation, outcome class, maxlen, empty/non-empty) cells + distinct schedules '
         'with a preemption inside an operation')
 DISTINCT = ('cells', 'schedules')
-REQUIRED = ('scheduled_item_accesses', 'calls_judged', 'file_backed_values', 'reopen_events', 'pickle_events', 'copy_events', 'fanout_deques',
+REQUIRED = ('long_deques', 'scheduled_item_accesses', 'calls_judged', 'file_backed_values', 'reopen_events', 'pickle_events', 'copy_events', 'fanout_deques',
             'django_deques', 'maxlen_trims', 'size_limit_squeezes', 'schedules_checked', 'free_runs',
             'exceptions_matched', 'extends_from_failing_iterables', 'blocks_left_by_KeyboardInterrupt',
             'blocks_left_by_GeneratorExit', 'blocks_left_by_commit')
@@ -548,6 +548,84 @@ def free_run(dc, sc, res, rng, seed, topo, label):
         res.violation('items lost: appended %d, popped+remaining %d' % (len(appended), len(allout)), {'label': label})
 
 
+def long_deque(dc, sc, res, rng, size, how, label):
+    """A Deque longer than any page the library reads keys in (pages of 100 rows): everything that walks the whole
+    deque - iteration in both directions, comparison, count, the full span of indices, remove, rotate, reverse, copy,
+    reopen - against collections.deque."""
+    d = sc.new()
+    owner = None
+    try:
+        if how == 'fanout':
+            owner = dc.FanoutCache(d, shards=2)
+            D = owner.deque('long')
+        else:
+            D = dc.Deque(directory=d)
+        items = [('v', i) if i % 7 else 'text-%d' % i for i in range(size)]
+        D.extend(items)
+        R = collections.deque(items)
+        wit = {'label': label, 'size': size, 'how': how}
+
+        def compare(what):
+            res.count('evaluations')
+            got, rev = list(D), list(reversed(D))
+            if got != list(R) or rev != list(reversed(R)) or len(D) != len(R) or not (D == R):
+                res.violation('a Deque of %d items after %s: iteration yields %d items (reversed: %d), len %d, equal to the '
+                              'reference: %s' % (len(R), what, len(got), len(rev), len(D), D == R), wit)
+                return False
+            return True
+        if not compare('extend'):
+            return
+        for idx in sorted({0, 1, 99, 100, 101, 102, size - 1, -1, -2, -100, -101, -102, -103, -size} | {rng.randrange(-size, size) for _ in range(6)}):
+            if -size <= idx < size:
+                a, b = outcome(lambda: D[idx]), outcome(lambda: R[idx])
+                if a != b:
+                    res.violation('Deque[%d] of %d items -> %r, collections.deque -> %r' % (idx, size, a, b), wit)
+                    return
+        for idx in (size - 1, -size, size // 2, -(size // 2) - 1):
+            v = ('assigned', idx)
+            a, b = outcome(lambda: D.__setitem__(idx, v)), outcome(lambda: R.__setitem__(idx, v))
+            if a != b:
+                res.violation('Deque[%d] = v on %d items -> %r, collections.deque -> %r' % (idx, size, a, b), wit)
+                return
+        if not compare('assignments near both ends'):
+            return
+        probe_item = items[size - 2]
+        a, b = outcome(lambda: D.count(probe_item)), outcome(lambda: R.count(probe_item))
+        if a != b:
+            res.violation('count() of an item near the end of %d items -> %r, collections.deque -> %r' % (size, a, b), wit)
+            return
+        a, b = outcome(lambda: D.remove(probe_item)), outcome(lambda: R.remove(probe_item))
+        if a != b or not compare('remove of an item near the end'):
+            if a != b:
+                res.violation('remove() of an item near the end of %d items -> %r, collections.deque -> %r' % (size, a, b), wit)
+            return
+        a, b = outcome(lambda: D.__delitem__(-3)), outcome(lambda: R.__delitem__(-3))
+        if a != b or not compare('del deque[-3]'):
+            return
+        D.rotate(7)
+        R.rotate(7)
+        if not compare('rotate(7)'):
+            return
+        D.reverse()
+        R.reverse()
+        if not compare('reverse()'):
+            return
+        C = D.copy()
+        if list(C) != list(R):
+            res.violation('copy() of a Deque of %d items has %d items' % (len(R), len(list(C))), wit)
+            return
+        if how != 'fanout':
+            D2 = dc.Deque(directory=d)
+            if list(D2) != list(R):
+                res.violation('a reopened Deque of %d items yields %d items' % (len(R), len(list(D2))), wit)
+                return
+        res.count('long_deques')
+    finally:
+        if owner is not None:
+            owner.close()
+        sc.drop(d)
+
+
 def run_shard(tier, seed, shard, nshards, res):
     dc = common.use_repo()
     probe.install()
@@ -557,6 +635,12 @@ def run_shard(tier, seed, shard, nshards, res):
             history(dc, sc, res, rng, 'c11 history seed=%d shard=%d i=%d' % (seed, shard, i))
             if res.counters.get('violations_raw', 0) > 8:
                 return
+        sizes = [100, 101, 102, 103, 199, 200, 201, 202, 250, 301, 302, 5]
+        for j in range(1 if tier == 'quick' else 6):
+            rng = common.rng_for(seed, 'c11l', shard, j)
+            size = sizes[(shard + j * 5 + seed) % len(sizes)]
+            how = 'fanout' if (shard + j) % 4 == 3 else 'directory'
+            long_deque(dc, sc, res, rng, size, how, 'c11 long deque seed=%d shard=%d size=%d %s' % (seed, shard, size, how))
         probe.reset()
         for i in range(40 if tier == 'quick' else 800):
             rng = common.rng_for(seed, 'c11c', shard, i)
